@@ -6,7 +6,7 @@ import conc
 import driver
 
 PROPERTIES_FILE = "Properties/Properties_C08.v"
-COQ_DEPS = ["Proofs/Sema_proofs.vo"]
+COQ_DEPS = ["Proofs/Sema_proofs.vo", "Proofs/SemaR_proofs.vo"]
 GEN_MODULES = ["Gen_sema"]
 LEVEL = "proof"
 TRUSTED = [
@@ -14,7 +14,11 @@ TRUSTED = [
     "_dispatch_semaphore_wait_slow incl. the undo loop, which is a plain while + cmpxchgvw and not an os_atomic_rmw_loop, so "
     "src2v yields only its atomic sites and memory orders); it is tied by (a) the site-list equalities checked by Coq and (b) "
     "per-thread trace conformance: every recorded thread trace of the real library must be accepted by Sema.tstep_vis, which "
-    "also checks every branch condition (value > 0, value >= 0, orig < 0), the CAS operand orig+1 and the memory orders",
+    "also checks every branch condition (value > 0, value >= 0, orig < 0), the CAS operand orig+1 and the memory orders, and "
+    "(c) whole-round replay: all threads of a round together (the main thread's rescue signals and drain included) must be a "
+    "run of the global model Sema.gstep (SemaR.replay): the values observed in dsema_value are the model's, and every return "
+    "of sem_wait / successful sem_timedwait finds a positive kernel count in the model (the count is reconstructed from the "
+    "recorded sem_post calls and wait returns); the round must end in the library's final dsema_value and sem_getvalue",
     "the plain read `orig = dsema->dsema_value` (semaphore.c:122) is not an os_atomic operation and is invisible to the hook; "
     "its value is inferred from the following cmpxchg (new value - 1) or, when the thread goes straight to sem_wait, only "
     "known to be >= 0 (Sema_proofs.tstep_vis_sound relates tstep_vis to tstep)",
@@ -66,7 +70,8 @@ def analyse(text, label):
     for l in other:
         f = l.split()
         if f[0] == "S":
-            rounds[int(f[1])] = dict(v=int(f[2]), n=int(f[3]), drained=int(f[4]), off=int(f[5]), rescues=int(f[6]))
+            rounds[int(f[1])] = dict(v=int(f[2]), n=int(f[3]), drained=int(f[4]), off=int(f[5]), rescues=int(f[6]),
+                                     final_value=int(f[7]) if len(f) > 7 else None, final_kcount=int(f[8]) if len(f) > 8 else None)
         elif f[0] == "H":
             hung.add(int(f[1]))
             fails.append({"key": "%s:round%s:lost-signal" % (label, f[1]), "round": int(f[1]), "label": label,
@@ -82,6 +87,7 @@ def analyse(text, label):
                          "undo_cas_success", "undo_cas_fail", "undo_failed_then_sem_wait", "returns_zero", "returns_timeout",
                          "rescue_signals", "drained_permits", "max_waiters_registered")}
     st["min_timeout_margin_ns"] = None
+    groups = []
     for rd, info in sorted(rounds.items()):
         st["rounds"] += 1
         st["rescue_signals"] += info["rescues"]
@@ -141,6 +147,7 @@ def analyse(text, label):
                                   (v, sig_started, before, tout - 1, info["drained"], v + sig_started - before)})
         st["returns_zero"] += succ
         st["returns_timeout"] += tout
+        groups.append((rd, info, [(thr, evs) for thr, evs in sorted(thr_ev.items())]))
         for thr, evs in thr_ev.items():
             st["thread_traces"] += 1
             traces.append((0, evs, rd, thr))
@@ -174,7 +181,98 @@ def analyse(text, label):
                     st["timedwait_timeout" if e.b else "timedwait_success"] += 1
                 elif e.kind == 5:
                     st["undo_cas_success" if e.ok & 1 else "undo_cas_fail"] += 1
-    return fails, traces, st
+    return fails, traces, st, groups
+
+
+REPLAY_OUT = ["done", "left", "events_not_abstracted", "stuck_thread", "stuck_event_index", "stuck_hidden_kind", "value", "kernel_count",
+              "signals_started", "signals_finished", "waits_started", "waits_returned_zero", "waits_returned_nonzero", "inv_b", "all_idle"]
+
+
+def global_replay(name, groups, budget=2500):
+    """groups: list of (round, info, [(thread#, [Ev])]): every round is replayed, all its threads together, on the global model
+    Sema.gstep by SemaR.replay inside Coq; returns one dict (REPLAY_OUT) per round, and the per-thread conformance results
+    {(round, thread#): (index of the first rejected event or -1, ended idle)} of Sema.conform computed in the same evaluation"""
+    out, part, nev, conf = [], [], 0, {}
+
+    def flush():
+        nonlocal part, nev, out
+        if not part:
+            return
+        body = ["Definition rounds : list (Z * list (Z * list (Z * event))) := ["]
+        body.append(";\n".join("(%d, [%s])" % (info["v"], "; ".join("(%d, [%s])" % (thr, "; ".join("(%d, %s)" % (2 * e.seq, e.coq()) for e in tr))
+                                                                   for (thr, tr) in grp)) for (_, info, grp) in part))
+        body.append("].")
+        # the replay result of every round, then the per-thread conformance result (Sema.conform) of every thread of every round
+        body.append("Eval vm_compute in (map (fun '(v, ths) => SemaR.replay v ths) rounds, "
+                    "map (fun '(v, ths) => map (fun '(t, tr) => let '(i, d) := Sema.conform 0 (map snd tr) in [i; d]) ths) rounds).")
+        ok, vals, raw = driver.coq_eval("%s_%d" % (name, len(out)), ["Word", "Conc", "Replay", "Gen_sema", "Sema", "SemaR"],
+                                        "\n".join(body) + "\n", timeout=900)
+        if not ok or len(vals) != 1:
+            raise RuntimeError("coq replay evaluation failed: " + raw[-2000:])
+        xs = driver.ints(vals[0])
+        k = len(REPLAY_OUT)
+        nthr = sum(len(grp) for (_, _, grp) in part)
+        if len(xs) != k * len(part) + 2 * nthr:
+            raise RuntimeError("coq replay evaluation: %d values for %d rounds, %d threads" % (len(xs), len(part), nthr))
+        out += [dict(zip(REPLAY_OUT, xs[k * i:k * i + k])) for i in range(len(part))]
+        cs = xs[k * len(part):]
+        j = 0
+        for (rd, _, grp) in part:
+            for (thr, _) in grp:
+                conf[(rd, thr)] = (cs[2 * j], cs[2 * j + 1])
+                j += 1
+        part, nev = [], 0
+
+    for g in groups:
+        n = sum(len(tr) for (_, tr) in g[2])
+        if part and nev + n > budget:
+            flush()
+        part.append(g)
+        nev += n
+    flush()
+    return out, conf
+
+
+def replay_mismatches(res, groups, seed):
+    """a round that is not replayed completely, or that does not end in the library's final words, is a mismatch"""
+    mism, okc = [], 0
+    for r, (rd, info, grp) in zip(res, groups):
+        nact = r["done"] + r["left"]
+        if r["left"] != 0 or r["events_not_abstracted"] != 0:
+            stuck = None
+            for (thr, tr) in grp:
+                if thr == r["stuck_thread"] and 0 <= r["stuck_event_index"] < len(tr):
+                    e = tr[r["stuck_event_index"]]
+                    stuck = {"thread": thr, "event": e.brief(), "stamp": e.seq,
+                             "before_it": "the hidden plain read of dsema_value" if r["stuck_hidden_kind"] == 1 else None}
+                    if e.kind in (36, 37):
+                        stuck["model_kernel_semaphore_count"] = r["kernel_count"]
+                    if e.kind in (5, 6, 7):
+                        stuck["observed_value"], stuck["model_value"] = s64(e.a), r["value"]
+            mism.append({"what": "whole-round replay on the global model Sema.gstep: the model does not accept the recorded actions of "
+                         "the round in any order the scheduler tries (first unmatched action in detail): the implementation took a step "
+                         "the global model does not have in that state",
+                         "detail": {"seed": seed, "round": rd, "initial_value": info["v"], "first_unmatched": stuck,
+                                    "executed": r["done"], "of": nact, "state": {k: r[k] for k in REPLAY_OUT[6:]}}})
+            continue
+        bad = []
+        if r["inv_b"] != 1:
+            bad.append("inv_b (SemaR.inv_b, proved true on reachable states) is false")
+        if r["all_idle"] != 1:
+            bad.append("a thread is still inside a call")
+        if info.get("final_value") is not None and r["value"] != info["final_value"]:
+            bad.append("dsema_value: model %d, library %d" % (r["value"], info["final_value"]))
+        if info.get("final_kcount") is not None and info["final_kcount"] >= 0 and r["kernel_count"] != info["final_kcount"]:
+            bad.append("kernel semaphore count: model %d, sem_getvalue %d" % (r["kernel_count"], info["final_kcount"]))
+        if r["waits_returned_zero"] != info["v"] + r["signals_started"] - r["value"]:
+            bad.append("successes %d <> v + signals - value" % r["waits_returned_zero"])
+        if bad:
+            mism.append({"what": "whole-round replay on the global model Sema.gstep: the state the model reaches by replaying the round "
+                         "is not the state the library ended in", "detail": {"seed": seed, "round": rd, "wrong": bad,
+                                                                             "state": {k: r[k] for k in REPLAY_OUT[6:]}}})
+            continue
+        okc += 1
+    return mism, okc
 
 
 def shape(tr):
@@ -184,14 +282,21 @@ def shape(tr):
 
 def correspond(ctx):
     nseeds, rounds = (3, 80) if ctx.tier == "quick" else (8, 250)
-    fails, mism, alltr, total = [], [], [], {}
+    fails, mism, rmism, alltr, total, confall = [], [], [], [], {}, {}
     for i in range(nseeds):
         seed = ctx.seed * 1000 + i
         permille = [0, 150, 400][i % 3]
         text = run_harness(ctx, seed, rounds, permille)
-        f, tr, st = analyse(text, "seed%d" % seed)
+        f, tr, st, groups = analyse(text, "seed%d" % seed)
         fails += f
         alltr += [(sv, t, rd, thr, seed) for (sv, t, rd, thr) in tr]
+        rres, conf = global_replay("c08_replay_%d" % i, groups)
+        confall.update({(seed, rd, thr): v for (rd, thr), v in conf.items()})
+        rm, okc = replay_mismatches(rres, groups, seed)
+        rmism += rm
+        total["rounds_replayed_on_global_model"] = total.get("rounds_replayed_on_global_model", 0) + okc
+        total["rounds_total_for_replay"] = total.get("rounds_total_for_replay", 0) + len(groups)
+        total["replay_actions"] = total.get("replay_actions", 0) + sum(r["done"] for r in rres)
         for k, v in st.items():
             if k == "min_timeout_margin_ns":
                 if v is not None:
@@ -202,8 +307,8 @@ def correspond(ctx):
                 total[k] = max(total.get(k, 0), v)
             else:
                 total[k] = total.get(k, 0) + v
-    res = conc.coq_conform("c08_conf", ["Word", "Conc", "Gen_sema", "Sema"], "conform", [(sv, t) for (sv, t, _, _, _) in alltr],
-                           chunk=300)
+    # per-thread conformance: Sema.conform of every thread trace, evaluated inside Coq together with the replay of its round
+    res = [confall[(seed, rd, thr)] for (_, _, rd, thr, seed) in alltr]
     for (i, idle), (sv, t, rd, thr, seed) in zip(res, alltr):
         if i != -1 or idle != 1:
             lo = max(0, i - 6) if i >= 0 else max(0, len(t) - 8)
@@ -211,6 +316,7 @@ def correspond(ctx):
                          "(Sema.tstep_vis): the implementation took a step the model does not have",
                          "detail": {"seed": seed, "round": rd, "thread": thr, "rejected_at": i, "ended_idle": idle,
                                     "events_before_and_at_rejection": [e.brief() for e in t[lo:(i + 1 if i >= 0 else len(t))]]}})
+    mism = mism[:10] + rmism[:10] + mism[10:] + rmism[10:]      # both kinds among the ones reported
     nev = sum(len(t) for (_, t, _, _, _) in alltr)
     # distinct shapes of single calls (event kinds, CAS outcomes, sign of the value seen, timeout flag)
     shapes = set()
@@ -245,7 +351,12 @@ def correspond(ctx):
                     "mixes, schedule perturbation inside the library's atomic operations (0/15/40 percent of events), SIGUSR1 "
                     "storms without SA_RESTART, rescue signals by the main thread when only untimed waiters remain, then a drain by "
                     "polling; every per-thread event trace recorded by the DISPATCH_VERIF hook is replayed through Sema.tstep_vis "
-                    "inside Coq (evaluations = thread traces); API-level oracle on stamps: at every prefix successes <= v + signals "
+                    "inside Coq (evaluations = thread traces); WHOLE-ROUND REPLAY: all threads of a round (main thread included), "
+                    "merged by the recorder's stamps, are replayed on the global model Sema.gstep (SemaR.replay inside Coq: an action "
+                    "is taken only when the model accepts it with the value the library observed in dsema_value and, for a return "
+                    "of sem_wait / a successful sem_timedwait, with a positive kernel count in the model; every action must be "
+                    "consumed), the end state must have the library's final dsema_value and sem_getvalue and satisfy the boolean "
+                    "invariant SemaR.inv_b; API-level oracle on stamps: at every prefix successes <= v + signals "
                     "started, no non-zero return from an untimed wait, no non-zero return earlier than the deadline (library clock, "
                     "%d ns tolerance in the safe direction), and after quiescence the drain obtains exactly v + signals - successes; "
                     "distinct = distinct shapes of single calls (event kinds, CAS outcome, sign of the value seen, timeout flag)" % TOL_NS,
@@ -274,7 +385,7 @@ def replay(ctx, obj):
     for lab, seed in sorted(seeds.items()):
         quick = seed % 1000 < 3
         text = run_harness(ctx, seed, 80 if quick else 250, [0, 150, 400][(seed % 1000) % 3])
-        f2, tr, _ = analyse(text, lab)
+        f2, tr, _, _ = analyse(text, lab)
         res = conc.coq_conform("c08_replay", ["Word", "Conc", "Gen_sema", "Sema"], "conform", [(sv, t) for (sv, t, _, _) in tr],
                                chunk=300)
         bad = sum(1 for (i, idle) in res if i != -1 or idle != 1)
